@@ -86,7 +86,63 @@ def conformance(ck, rnd):
         if [_conc(x) for x in colsym.m_isin(SymArray(fk.tolist(), int), SymArray(pk.tolist(), int)).e] != numpy.isin(fk, pk).tolist():
             raise common.HarnessError("isin model disagrees with numpy")
         n_ok += 1
+    n_ok += conformance_vocabulary(rnd)
     ck.extra["model_conformance_cases"] = n_ok
+
+
+def conformance_vocabulary(rnd):
+    """models of the numpy vocabulary that a rewritten column function may use (unique/bincount/argsort/lexsort/
+    searchsorted/diff/concatenate/ufunc.at/clip): model on concrete columns == numpy"""
+    n_ok = 0
+
+    def arr(x):
+        return SymArray([v.item() if isinstance(v, numpy.generic) else v for v in x])
+
+    def lst(m, n=None):
+        if isinstance(m, SymArray):
+            return [_conc(x) for x in m.e]
+        k = _conc(m._symlen())
+        return [_conc(m[i]) for i in range(k)]
+
+    def same(a, b, what):
+        if len(a) != len(b) or any(abs(float(x) - float(y)) > 1e-12 for x, y in zip(a, b)):
+            raise common.HarnessError(f"{what}: model {a} vs numpy {list(b)}")
+    for trial in range(40):
+        n = rnd.randint(1, 5)
+        x = numpy.array([rnd.choice([0, 1, 2, 4, 7]) for _ in range(n)])
+        y = numpy.array([rnd.choice([0, 1, 3]) for _ in range(n)])
+        w = numpy.array([rnd.choice([-1.5, 0.0, 2.0, 3.25]) for _ in range(n)])
+        u, idx, inv, cnt = numpy.unique(x, return_index=True, return_inverse=True, return_counts=True)
+        mu, midx, minv, mcnt = colsym.m_unique(arr(x), return_index=True, return_inverse=True, return_counts=True)
+        same(lst(mu), u.tolist(), f"unique {x.tolist()}")
+        same(lst(midx), idx.tolist(), f"unique index {x.tolist()}")
+        same(lst(minv), inv.tolist(), f"unique inverse {x.tolist()}")
+        same(lst(mcnt), cnt.tolist(), f"unique counts {x.tolist()}")
+        same(lst(colsym.m_bincount(arr(x))), numpy.bincount(x).tolist(), f"bincount {x.tolist()}")
+        same(lst(colsym.m_bincount(arr(x), weights=arr(w), minlength=3)), numpy.bincount(x, weights=w, minlength=3).tolist(), f"bincount weights {x.tolist()}")
+        same(lst(colsym.m_argsort(arr(x))), numpy.argsort(x, kind="stable").tolist(), f"argsort {x.tolist()}")
+        same(lst(colsym.m_lexsort((arr(y), arr(x)))), numpy.lexsort((y, x)).tolist(), f"lexsort {x.tolist()} {y.tolist()}")
+        if n > 1:
+            same(lst(colsym.m_diff(arr(w))), numpy.diff(w).tolist(), "diff")
+        same(lst(colsym.m_concatenate([arr(x), arr(y)])), numpy.concatenate([x, y]).tolist(), "concatenate")
+        same(lst(colsym.m_append(arr(w), 9.5)), numpy.append(w, 9.5).tolist(), "append")
+        sx = numpy.sort(x)
+        for side in ("left", "right"):
+            same(lst(arr(sx).searchsorted(arr(y), side=side)), numpy.searchsorted(sx, y, side=side).tolist(), f"searchsorted {side}")
+        srt = numpy.argsort(x, kind="stable")
+        same(lst(arr(x).searchsorted(arr(y), sorter=arr(srt))), numpy.searchsorted(x, y, sorter=srt).tolist(), "searchsorted sorter")
+        same(lst(arr(w).clip(max=2.0)), w.clip(max=2.0).tolist(), "clip max")
+        same(lst(arr(w).clip(min=0.0)), w.clip(min=0.0).tolist(), "clip min")
+        same(lst(colsym.m_clip(arr(w), -1.0, 2.5)), numpy.clip(w, -1.0, 2.5).tolist(), "clip both")
+        pos = numpy.array([rnd.randrange(n) for _ in range(n)])
+        for op, uf in (("add", numpy.add), ("max", numpy.maximum), ("min", numpy.minimum)):
+            real = numpy.zeros(n)
+            uf.at(real, pos, w)
+            mod = colsym._m_filled(0)(n)
+            colsym._m_ufunc_at(op)(mod, arr(pos), arr(w))
+            same(lst(mod), real.tolist(), f"{op}.at {pos.tolist()} {w.tolist()}")
+        n_ok += 20
+    return n_ok
 
 
 def _conc(x):
